@@ -204,24 +204,27 @@ func (br *BlockReader) SkipNext() (*BlockMetadata, error) {
 
 	// move our reader forward; either by seeking or slurping
 
-	if brs, ok := br.r.(io.ReadSeeker); ok {
+	brs, seekable := br.r.(io.ReadSeeker)
+	if seekable && br.readerSize == -1 {
 		// carv1 and we don't know the size, so work it out and cache it so we
 		// can use it to determine over-reads
-		if br.readerSize == -1 {
-			cur, err := brs.Seek(0, io.SeekCurrent)
-			if err != nil {
-				return nil, err
-			}
-			end, err := brs.Seek(0, io.SeekEnd)
-			if err != nil {
-				return nil, err
-			}
+		cur, err := brs.Seek(0, io.SeekCurrent)
+		if err != nil {
+			return nil, err
+		}
+		if end, err := brs.Seek(0, io.SeekEnd); err != nil {
+			// a seeker that cannot tell where it ends (e.g. Reader.DataReader of a CARv1):
+			// over-reads could not be detected, so skip by reading instead
+			br.readerSize = -2
+		} else {
 			br.readerSize = end
 			if _, err = brs.Seek(cur, io.SeekStart); err != nil {
 				return nil, err
 			}
 		}
+	}
 
+	if seekable && br.readerSize >= 0 {
 		// seek forward past the block data
 		finalOffset, err := brs.Seek(int64(blockSize), io.SeekCurrent)
 		if err != nil {
